@@ -423,7 +423,9 @@ class XBuffer(ABC):
         if sizepa > self.capacity:
             self.grow(sizepa)
         elif self.grow_step is not None:
-            self.grow(self.grow_step)
+            # grow at least enough for this request: growing by a small
+            # grow_step once per recursion exhausted the recursion limit
+            self.grow(max(self.grow_step, sizepa))
         else:
             self.grow(self.capacity)
 
